@@ -2263,3 +2263,14 @@ M("C02-setitem-dispatch-does-not-release-args", "C02", F_PN,
 M("C02-ternary-dispatch-does-not-release-args", "C02", F_PN,
   "                                       true, true, AT_varargs, return_flags | RF_decref_args, true)) {", "                                       true, true, AT_varargs, return_flags, true)) {",
   expect="R02.12|write_module_class@")
+
+# ---- R06.16 (S9-C06: T[] and T[N] tie in is_less)
+M("C06-array-bound-not-ordered-against-no-bound", "C06", "src/cppparser/cppArrayType.cxx",
+  "  } else if ((_bounds == nullptr) != (ot->_bounds == nullptr)) {\n    return _bounds < ot->_bounds;\n  }\n", "  }\n",
+  expect="R06.16|CPPArrayType::is_less|_bounds|")
+
+# ---- R19.r (S9-C19: output moved into place by an unchecked rename)
+MUTANTS.append({"id": "C19-module-file-renamed-into-place-unchecked", "prop": "C19", "expect": "R19.r|interrogate_module.cxx::main|", "benign": False, "edits": [
+    (F_IM, "      if (output_code.fail()) {\n        nout << \"Error writing \" << output_code_filename << \"\\n\";\n        status = 1;\n      }\n",
+           "      if (output_code.fail()) {\n        nout << \"Error writing \" << output_code_filename << \"\\n\";\n        status = 1;\n      } else {\n        rename(output_code_filename.to_os_specific().c_str(), output_code_filename.to_os_specific().c_str());\n      }\n"),
+    (F_IM, "#include <algorithm>\n", "#include <algorithm>\n#include <cstdio>\n")]})
